@@ -38,7 +38,8 @@ def _dft_axis(a, n, axis, sign, scale):
 
 def _scale(n, norm, inverse):
     if norm == 'ortho':
-        return 1 / symnp._el_sqrt(n)
+        r = symnp._el_sqrt(n)
+        return (1 / r) if isinstance(r, Sx) else Fraction(1) / Fraction(r)
     if norm in (None, 'backward'):
         return Fraction(1, n) if inverse else None
     if norm == 'forward':
